@@ -387,3 +387,27 @@ PROPS["C03"] = _tx("C03", ["C03_receiver_invariant", "C03_receiver_initial", "C0
     "and do so within (3*max_count+3)*max timeout + NAK delay of silence.",
     " NOT mechanised: the closed-form bound for the whole run (ranking over the limit rounds of the successive phases); the "
     "daemon serving other transactions meanwhile (C11); transport back-pressure (a link that never accepts a PDU).")
+
+_LINK_RULE = (" Component `link`: one real SendTransaction and one real RecvTransaction joined by a scripted link on the paused "
+              "clock (deliver any PDU in flight, duplicate, drop, cut a direction for good, user requests, time advances, and "
+              "`RUN n` = both select! loops left alone on a loss-free link: send arms, deliveries in order, sleep to the earliest "
+              "deadline, timeout arms), compared operation by operation with the extracted two-machine system Model/Link.v; "
+              "scripts: ~50% bounded faults (fewer than max_count drops in total, any number of duplicates/reorderings, no time "
+              "passes while a PDU is in flight; files of 0, 1, seg-1, seg, seg+1, k*seg bytes incl. zero runs and checksum-neutral "
+              "words), ~30% blackout / unbounded loss / user cancel, ~20% free (suspend/resume/prompt/report, random handlers).")
+PROPS["C02"] = dict(_tx("C02", ["C02_one_clean_round_suffices", "C02_any_order_any_duplication", "C02_pieces_cover_request",
+                                "C02_requests_exactly_what_is_missing", "C02_timer_gives_up_only_at_limit"], ["link", "recv", "send"],
+    "Proof (PARTIAL) of the recovery argument at the data level: from ANY well-formed state of the receiver's bookkeeping and "
+    "any file size, the requests the receiver computes (exactly what is missing, C08) answered with the pieces the sender cuts "
+    "them into (C07) complete the file - in any order, with any duplication, an empty file and a missing first segment "
+    "included; the retransmission timers give up only after max_count whole periods (C17). The property itself - for every "
+    "placement of fewer than max_count faults the transfer completes at both ends with destination == source - is the oracle "
+    "of the `link` correspondence stream, evaluated on the REAL pair of transactions and compared step by step with the "
+    "extracted system model.",
+    " NOT mechanised: the liveness composition over the two-machine system (a global ranking over in-flight PDUs and timer "
+    "rounds); it is explored by the link stream only (bounded, supporting evidence - not a theorem). The daemon's routing "
+    "and real task scheduling are outside the model."))
+PROPS["C02"]["rule"] = _TX_RULE + _LINK_RULE
+for _p in ("C01", "C03"):
+    PROPS[_p]["components"] = PROPS[_p]["components"] + ["link"]
+    PROPS[_p]["rule"] = PROPS[_p]["rule"] + _LINK_RULE
